@@ -342,6 +342,14 @@ def rewrite_for(src, toks, br, loop, spec_text, idx_name, log, kind_hint=None):
     if base is not None:
         head = f"let mut {n}: usize = 0;\n while {n} < {base}.len()\n{spec_text}\n {{\n let {pat} = &{base}[{n}]; {n} += 1;\n"
         return head, f"for {pat} in {expr} {{ => index loop over `{base}`"
+    if re.match(r"^[A-Za-z_][A-Za-z0-9_]*$", expr) and kind_hint and "ref" in kind_hint:
+        # `for PAT in s` where `s` is a `&[T]` / `&Vec<T>`: yields `&T`
+        head = f"let mut {n}: usize = 0;\n while {n} < {expr}.len()\n{spec_text}\n {{\n let {pat} = &{expr}[{n}]; {n} += 1;\n"
+        return head, f"for {pat} in {expr} {{ => index loop over the slice reference `{expr}`"
+    if re.match(r"^[A-Za-z_][A-Za-z0-9_]*$", expr) and kind_hint and "copy" in kind_hint:
+        # `for PAT in v` over a Vec by value: index loop copying each element (compiles only for Copy elements)
+        head = f"let mut {n}: usize = 0;\n while {n} < {expr}.len()\n{spec_text}\n {{\n let {pat} = {expr}[{n}]; {n} += 1;\n"
+        return head, f"for {pat} in {expr} {{ => index loop over the Vec `{expr}` (elements are Copy)"
     raise VxError(f"E7: unsupported iterator expression `{expr}` at line {line_of(src, toks[kw].start)}")
 
 def process_fn(repo, glob, fs, log):
@@ -541,7 +549,7 @@ def process_fn(repo, glob, fs, log):
             if L["kw"] != "for":
                 raise VxError(f"lost anchor: {fs.name}: loop #{n} is not a `for` loop")
             idx = f"__i{n}"
-            head, note = rewrite_for(src, toks, br, L, sp, idx, log)
+            head, note = rewrite_for(src, toks, br, L, sp, idx, log, kind_hint=loop_for[n])
             s, e = toks[kwt].start, toks[op].end
             ed.add(s, e, head, "E7", note); logrule("E7", s, src[s:e], head.split("\n")[0] + " ...")
         else:
